@@ -317,3 +317,25 @@ M('tb-limit-off-by-one', 'C16', 'tbutils.py',
   "        while tb is not None and n < limit:\n            item = cls.callpoint_type.from_tb(tb)", "        while tb is not None and n < min(limit, 24):\n            item = cls.callpoint_type.from_tb(tb)")
 M('tb-line-strip-only-left', 'C16', 'tbutils.py',
   "            ret += f'    {str(self.line).strip()}\\n'", "            ret += f'    {str(self.line).lstrip()}'")
+
+# ---------------------------------------------------------------- C17
+M('oto-setitem-keeps-old-inverse', 'C17', 'dictutils.py',
+  "        if key in self:\n            dict.__delitem__(self.inv, self[key])\n        if val in self.inv:",
+  "        if key in self and len(self) < 4:\n            dict.__delitem__(self.inv, self[key])\n        if val in self.inv:")
+M('oto-setdefault-via-dict', 'C17', 'dictutils.py',
+  "        if key not in self:\n            self[key] = default\n        return self[key]\n\n    def update(self, dict_or_iterable, **kw):",
+  "        if key not in self:\n            dict.__setitem__(self, key, default)\n            dict.__setitem__(self.inv, default, key)\n        return self[key]\n\n    def update(self, dict_or_iterable, **kw):")
+M('oto-pop-default-inv', 'C17', 'dictutils.py',
+  "        if key in self:\n            dict.__delitem__(self.inv, self[key])\n            return dict.pop(self, key)",
+  "        if key in self:\n            if default is _MISSING:\n                dict.__delitem__(self.inv, self[key])\n            return dict.pop(self, key)")
+M('m2m-remove-leaves-empty-inverse', 'C17', 'dictutils.py',
+  "        self.inv.data[val].remove(key)\n        if not self.inv.data[val]:\n            del self.inv.data[val]\n\n    def replace",
+  "        self.inv.data[val].remove(key)\n\n    def replace")
+M('m2m-setitem-keeps-removed', 'C17', 'dictutils.py',
+  "            to_remove = self.data[key] - vals\n            vals -= self.data[key]", "            to_remove = (self.data[key] - vals) if len(vals) != 2 else set()\n            vals -= self.data[key]")
+M('frozen-setdefault-existing-allowed', 'C17', 'dictutils.py',
+  "    setdefault = pop = popitem = clear = _raise_frozen_typeerror", "    pop = popitem = clear = _raise_frozen_typeerror")
+M('frozen-hash-of-keys-only', 'C17', 'dictutils.py',
+  "                ret = self._hash = hash(frozenset(self.items()))", "                ret = self._hash = hash(tuple(self.items()))")
+M('frozen-hasherror-not-cached', 'C17', 'dictutils.py',
+  "                ret = self._hash = FrozenHashError(e)", "                ret = FrozenHashError(e)\n                self._hash = 0")
